@@ -160,6 +160,10 @@ def build_leaf(name, sources, extra_flags=""):
     out = os.path.join(dest, name + "-" + dh)
     with Lock("leaf-" + name):
         if os.path.exists(out):
+            try:
+                os.utime(dest, None)      # in use: keep it out of reach of a concurrent check's pruning
+            except OSError:
+                pass
             return out
         os.makedirs(dest, exist_ok=True)
         cmd = "g++ -std=c++17 -O1 -w -D%s -I%s -I%s/src -I%s/src/backend/interpreter %s %s %s -o %s.tmp -ldl" % (
